@@ -6,7 +6,6 @@ import (
 	"fmt"
 	"sync"
 	"testing"
-	"time"
 
 	"pgregory.net/rapid"
 
@@ -103,8 +102,8 @@ func genLifetime(t *rapid.T) Lifetime {
 var delayBuckets = [][2]int{{0, 0}, {1, 60}, {400, 600}, {950, 1050}, {1950, 2050}, {2900, 3100}, {4000, 9000}, {maxDelay, maxDelay}}
 
 func genBeh(t *rapid.T) Beh {
-	b := Beh{Kind: rapid.SampledFrom([]int{behSCT, behSCT, behSCT, behSCT, behSCT, behSCT, behSCT, behErr, behErr, behHang}).Draw(t, "kind")}
-	if b.Kind != behHang {
+	b := Beh{Kind: rapid.SampledFrom([]int{behSCT, behSCT, behSCT, behSCT, behSCT, behSCT, behSCT, behSCT, behSCT, behErr, behErr, behErr, behHang, behStuck}).Draw(t, "kind")}
+	if b.Kind != behHang && b.Kind != behStuck {
 		bk := delayBuckets[rapid.IntRange(0, len(delayBuckets)-1).Draw(t, "bucket")]
 		b.DelayMs = rapid.IntRange(bk[0], bk[1]).Draw(t, "delay")
 	}
@@ -226,7 +225,8 @@ func run1(t *testing.T, c Case1, emit func(Out1)) {
 	out := Out1{Subs: make([]SubOut, len(c.Subs))}
 	tr := &trace{}
 	vt.Run(t, watchdog, func(ctx context.Context) {
-		tr.t0 = time.Now()
+		tr.start(ctx)
+		defer tr.finish()
 		all, release := context.WithCancel(ctx)
 		defer release()
 		ll := buildList(c.List, c.Life.NotAfter(), nil)
